@@ -517,6 +517,8 @@ func (exp *exporter) FigureImage(image string, caption string, link string, alt 
 	link = exp.processLink(link)
 	if alt == "" && caption != "" {
 		alt = caption
+	} else {
+		alt = html.EscapeString(alt)
 	}
 	if link != "" && ctx.Format == "xhtml" {
 		fmt.Fprintf(w, "  <a href=\"%s\"><img src=\"%s\" alt=\"%s\" /></a>\n", link, u, alt)
@@ -635,6 +637,7 @@ func (exp *exporter) InlineImage(image string, link string, id string, punct str
 		u = path.Join("images", u)
 	}
 	link = exp.processLink(link)
+	alt = html.EscapeString(alt)
 	if id != "" {
 		id = " id=\"" + id + "\""
 	}
